@@ -539,16 +539,27 @@ func (h *harness) runShape(id string, lim limits, st *sentinels, shape int, nont
 func enumerate(ctx *seq.Ctx) {
 	h := &harness{w: loadWorld(configPath), ctx: ctx, seen: map[string]bool{}, confirmed: map[string]int{}}
 	seeds := loadSeeds()
-	enumMenus(h)
-	enumEdits(h, seeds)
-	enumShort(h)
-	enumShortLines(h)
-	enumLengths(h)
-	enumUnits(h)
-	enumRich(h)
-	h.flushBatch()
+	// the soak group comes first: the live heap of a young worker process is small and steady
+	var spent []string
+	for _, g := range []struct {
+		name string
+		f    func()
+	}{
+		{"G", func() { enumSoak(h) }},
+		{"A", func() { enumMenus(h) }},
+		{"B", func() { enumEdits(h, seeds) }},
+		{"C", func() { enumShort(h) }},
+		{"C2+C3", func() { enumShortLines(h) }},
+		{"D", func() { enumLengths(h) }},
+		{"E", func() { enumUnits(h) }},
+		{"F", func() { enumRich(h); h.flushBatch() }},
+	} {
+		t0 := time.Now()
+		g.f()
+		spent = append(spent, fmt.Sprintf("%s=%.1fs", g.name, time.Since(t0).Seconds()))
+	}
 	h.sess = nil
-	enumSoak(h)
+	ctx.Note("wall_time_per_group_in_one_worker_process", strings.Join(spent, " "))
 	ctx.Note("outcomes_in_one_worker_process", fmt.Sprintf("bad record rejected at input=%d, delivered=%d (of which through a pipeline other than the sentinels'=%d), dropped by pipeline transforms=%d, panics=%d, "+
 		"flush ticks after which the pipeline registry was unreadable (invalid UTF-8 label)=%d, agent cores built=%d, flush ticks judged=%d, batches re-run case by case=%d, cases played again on a new core after a later case broke theirs=%d",
 		h.nRejected, h.nDelivered, h.nOwnPipe, h.nProcDropped, h.nPanic, h.nGatherErr, h.nSessions, h.nBatches, h.nFallback, h.nRequeued))
